@@ -21,12 +21,15 @@ CLAIMED = {
         "statement (including checksum 0000), payload contract, exceptional postconditions; the identification-line pattern is translated from the source into an SMT regular expression and proved equal to the specified language.",
    note="Assumed (conformance-tested at replay time): bytes.lstrip/find/decode, str.strip as recursive spec functions; int(text,16) abstract with int(4 hex digits) == hexval4; re implements the regular language of the pattern.",
    technique=DED + "; regex language equivalence in z3's sequence theory", design="DESIGN.md section 9 C04"),
- "C05": dict(level="other",
-   text="Deductive part (unbounded): P1 reader contracts with ghost input stream - contiguity and byte-identity of returned readouts, identification-line tracking, no complete line left unconsumed, the guard cannot trip while "
-        "unconsumed + collected octets <= 8191, termination, validity of well-formed readouts by C04(iv). The whole-history composition 'every readout of a clean stream exactly once' is a BOUNDED stand-in on the real reader "
-        "(generated clean streams x chunk sizes), labelled bounded and not counted as proved; hence level 'other'.",
-   note="Bounded stand-in: 150 (quick) / 3000 (thorough) generated streams of up to 200 readouts. Assumed prelude contracts as for C04.",
-   technique=DED + " for the per-call contracts; bounded run-time lemma check for the clean-stream composition", design="DESIGN.md section 9 C05"),
+ "C05": dict(level="proof",
+   text="Deductive, unbounded: (1) P1 reader contracts with a ghost input stream for every state and chunk - contiguity and byte-identity of returned readouts, identification-line tracking, no complete line left unconsumed, sizes within the bound, "
+        "termination, validity of well-formed readouts by C04(iv); (2) the clean-stream lemma as a second contract of the real ModeDReader.read(), proved on its real body: on a stream that from A0 on consists of well-formed readouts back to back "
+        "(described line by line with ghost functions of the line starts), read(chunk) takes 'unconsumed octets = line in progress, hunt mode iff not inside a readout, collected octets = stream since the readout started' to the same at the new "
+        "position and returns exactly one DataReadout per end line consumed, in order, byte-identical to the stream from its identification line to the end of its end line; the length guard never trips; a new reader inside the tail of a readout "
+        "reaches that state at A0. Same predicate before and after each call, so the calls compose for every splitting (sequential composition).",
+   note="Assumed: the description of a clean P1 stream (hypotheses CLEAN(p) in props/clean_p1.py incl. 'the leading tail holds no /' and 'each readout at most 8191 octets'; checked against every generated clean stream by the bounded run p1_ideal_check, "
+        "reachability of every line kind by cover canaries); prelude contracts as for C04. Bounded cross-checks on the real reader: 150/3000 generated streams of up to 200 readouts, 150/3000 streams with the contract evaluated after every call.",
+   technique=DED + "; second contract of read() with ghost functions of the line starts, proved on the real loop body", design="DESIGN.md section 9 C05 and 14.8"),
  "C02": dict(level="proof",
    text="Deductive, unbounded, four configurations: (1) the exact transition of the reader on every input octet (clauses T1-T13 of _read_next's contract, proved on the real source) and the frame contracts of C01 (validity, exact payload and "
         "header fields for any address length); (2) the clean-stream lemma as a second contract of the real read(), proved through _read_next's contract: on a stream that from its first flag on consists of flags and well-formed frames, "
